@@ -79,15 +79,27 @@ class Facts:
 
     # ---- lookup
     def find(self, regex, dk=None, file=None):
+        """Bodies whose path matches. Anchors are written against the paths of the tree they were confirmed on
+        (`Ty::<W, B>::f`, `<Ty<2, 9, C> as Trait>::f`); when nothing matches literally, the anchor and the
+        paths are compared with the names of generic type parameters dropped, so that adding or renaming a
+        type parameter of an impl does not lose the anchor."""
         rx = re.compile(regex)
         out = []
+        cands = []
         for b in self.bodies:
             if dk and b.dk != dk:
                 continue
             if file and not b.file.endswith(file):
                 continue
+            cands.append(b)
             if rx.search(b.path):
                 out.append(b)
+        if not out:
+            try:
+                rx2 = re.compile(canon_generics(regex))
+            except re.error:
+                return out
+            out = [b for b in cands if rx2.search(canon_generics(b.path))]
         return out
 
     def one(self, regex, **kw):
@@ -138,6 +150,62 @@ class Facts:
     def defpath(self, n):
         c = n.get("def")
         return self.paths[c] if c is not None else None
+
+
+_TYPARAM = re.compile(r"^(?:[A-Z][A-Za-z0-9_]*|'[a-z_]+)$")
+
+
+def canon_generics(path):
+    """Drops generic arguments that are bare type/const parameter names or lifetimes from every `<...>` list
+    of a printed path (or of a regex written against one): `Ty::<W, B>::f` -> `Ty::f`,
+    `<Ty<2, 9, C, I> as Tr<W>>::f` -> `<Ty<2, 9> as Tr>::f`. Concrete arguments are kept."""
+    out = []
+    i = 0
+    n = len(path)
+    # find innermost-first by recursion on balanced brackets
+    def parse(i, closing):
+        items, cur = [], ""
+        while i < n:
+            ch = path[i]
+            if ch == "<" and not (i > 0 and path[i - 1] in "(?"):
+                inner, i = parse(i + 1, ">")
+                cur += inner
+                continue
+            if closing and ch == ">" and not cur.endswith("-"):
+                items.append(cur)
+                return render(items), i + 1
+            if ch == "," and closing:
+                items.append(cur)
+                cur = ""
+                i += 1
+                continue
+            cur += ch
+            i += 1
+        items.append(cur)
+        return "".join(items) if not closing else render(items), i
+
+    def render(items):
+        # a list that is really `<X as Trait>` (qualified path) is kept as it is
+        if len(items) == 1 and " as " in items[0]:
+            return "<" + items[0] + ">"
+        kept = [x.strip() for x in items if not _TYPARAM.match(x.strip().replace("\\", ""))]
+        if not kept:
+            return "<>"
+        return "<" + ", ".join(kept) + ">"
+    res, _ = parse(0, None)
+    res = res.replace("::<>", "").replace("<>", "")
+    return res
+
+
+def path_matches(regex, path):
+    """regex (written against printed paths) matches path literally, or after dropping the names of generic
+    type parameters on both sides."""
+    if re.search(regex, path):
+        return True
+    try:
+        return re.search(canon_generics(regex), canon_generics(path)) is not None
+    except re.error:
+        return False
 
 
 class AnchorMissing(Exception):
